@@ -166,6 +166,7 @@ Print Assumptions C14_wrun_blocks.
      * authenticated mode: exactly the content bytes lying in the first m bytes of the block
        stream, ew_ctr * CHUNK <= m (all completed chunks; all of chunk 0, D2).
    Compression: parts 3 and 4. *)
+From MLA Require RepairSize.
 From MLA Require Import Repair RepairSpec RepairPure RepairProofs2 RepairProofs5 RepairProofs6 EncAuthFs Run
   ComposeRdOnly ComposeRepair ComposeWriterRun ComposeFlush.
 
@@ -190,9 +191,12 @@ Theorem C14_flush_then_repair_plain {LIM : Limit} :
     Forall op_ok ops -> w_next s < 2 ^ 64 ->
   forall (S : Stream) (I : st S -> N -> Prop) (s0 : st S) (fuel : nat),
     RdRefines (rd S) (w_out s) I -> I s0 0 -> (N.to_nat (len (w_out s)) < fuel)%nat ->
-    (* finalize did not fail with SerializationError: the footer of the repaired archive is
-       within BINCODE_MAX_DESERIALIZE (lim) and the u32 length field *)
-    repair FNMAX CACHE TS TC TA TE H S fuel s0 w_init <> Err EDeser ->
+    (* SIZE PREMISE (instead of "finalize did not fail with SerializationError"): the input is
+       small enough for the footer of the repaired archive to fit BINCODE_MAX_DESERIALIZE (lim)
+       and its u32 length field.  RepairSize.repair_footer_fits: the footer map takes at most
+       8 + 3 * (input bytes) bytes (constant c = 0).  For the production limit 536870912 the
+       premise holds for every input of at most 178956968 bytes (~170 MiB). *)
+    8 + 3 * len (w_out s) <= N.min lim (2 ^ 32 - 1) ->
     exists bl out obl,
       w_out s = body TS TC TA TE bl /\ wf_blocks FNMAX H bl /\ w_files s = name_list (files_of bl) /\
       repair FNMAX CACHE TS TC TA TE H S fuel s0 w_init
@@ -200,7 +204,11 @@ Theorem C14_flush_then_repair_plain {LIM : Limit} :
       good_output FNMAX TS TC TA TE H out obl /\ Forall2 same (files_of bl) (files_of obl) /\
       forall name id, In (name, id) (w_files s) ->
         content_of (files_of obl) name = appended FNMAX TS TC TA TE H order id w_init ops.
-Proof. exact flush_then_repair_plain. Qed.
+Proof.
+  intros FNMAX CACHE HFN HC TS TC TA TE Ht H HH order ops s rs Hrun Hclean Hops Hnext S I s0 fuel HR H0 Hfuel Hfit.
+  exact (flush_then_repair_plain FNMAX CACHE HFN HC TS TC TA TE Ht H HH order ops s rs Hrun Hclean Hops Hnext S I s0 fuel HR H0 Hfuel
+           (RepairSize.repair_no_ser_rd FNMAX CACHE TS TC TA TE H S (w_out s) I fuel s0 HR H0 Hfit)).
+Qed.
 
 Theorem C14_flush_then_repair_enc {LIM : Limit} :
   forall FNMAX CACHE : N, FNMAX < 2 ^ 64 -> 0 < CACHE ->
